@@ -25,7 +25,8 @@ EXTENDS Integers, Sequences, FiniteSets, TLC, Json, IOUtils, SequencesExt
 SrvA == [addr |-> "A", locs |-> <<"l1", "l2">>, cache |-> "c1", compress |-> "", minlen |-> "unset", filter |-> "unset"]
 (* ub: the backends of upstream uB: "B" (one server), "B+Ab" (B, and A as a backup), "Bb+A" (the same two addresses with the
    backup flag on the other one) *)
-Base == [servers |-> <<SrvA>>, l1up |-> "uA", p1 |-> "absent", best |-> "absent", caches |-> {"c1"}, ub |-> "B"]
+(* l2: the shape of location l2: "b" (prefix /b), "hosta" (host pike.test and prefixes /a, /b: for /a/... it is then more specific than l1) *)
+Base == [servers |-> <<SrvA>>, l1up |-> "uA", p1 |-> "absent", best |-> "absent", caches |-> {"c1"}, ub |-> "B", l2 |-> "b"]
 SrvB == [SrvA EXCEPT !.addr = "B", !.locs = <<"l2">>, !.cache = "c2"]
 SrvC == [SrvA EXCEPT !.addr = "C", !.locs = <<"l2">>]
 
@@ -42,7 +43,9 @@ K == [k1 |-> Base,
       k11 |-> [Base EXCEPT !.servers = <<[SrvA EXCEPT !.compress = "p1"]>>, !.p1 = "gziponly"],   \* the br level is left out
       k12 |-> [Base EXCEPT !.servers = <<SrvA, SrvB, SrvC>>, !.caches = {"c1", "c2"}],              \* three servers
       k13 |-> [Base EXCEPT !.ub = "B+Ab"],
-      k14 |-> [Base EXCEPT !.ub = "Bb+A"]]
+      k14 |-> [Base EXCEPT !.ub = "Bb+A"],
+      k15 |-> [Base EXCEPT !.l2 = "hosta"],
+      k16 |-> [Base EXCEPT !.servers = <<[SrvA EXCEPT !.minlen = "100"], SrvB>>, !.caches = {"c1", "c2"}]]   \* k7 with another threshold
 
 Names == DOMAIN K
 Distinct2 == {p \in Names \X Names : p[1] # p[2]}
@@ -51,6 +54,9 @@ Seqs2 == {<<p[1], p[2]>> : p \in Distinct2}
    first is still being applied *)
 Bursts == {<<"k1", "k2", "k6">>, <<"k1", "k7", "k1">>, <<"k1", "k4", "k3">>, <<"k1", "k13", "k14">>}
 Gaps == {0, 3, 10, 30}
+(* a server address removed and added again (its predecessor still closing: the known finding), then, after the graceful-close
+   window, one more update: from then on the instance is like a fresh one again *)
+Lates == {<<"k7", "k1", "k7", "k16">>}
 Seqs3 == {<<p[1], p[2], p[1]>> : p \in Distinct2} \cup {<<a, b, c>> \in Names \X Names \X Names : a # b /\ b # c /\ a # c /\ a \in {"k7", "k4", "k9"}}
 
 -----------------------------------------------------------------------------
@@ -80,7 +86,7 @@ ApplyAll(st, ks) == IF ks = <<>> THEN st ELSE ApplyAll(Apply(st, K[Head(ks)]), T
 ObsOf(st, k) ==
   [servers |-> [a \in DOMAIN st.servers |->
                   [st.servers[a] EXCEPT !.compress = IF @ = "" THEN "default" ELSE st.profiles.p1]],
-   best |-> st.profiles.best, l1up |-> k.l1up, ub |-> k.ub]
+   best |-> st.profiles.best, l1up |-> k.l1up, ub |-> k.ub, l2 |-> k.l2]
 
 LingeringBest(ks) == K[ks[Len(ks)]].best = "absent" /\ \E i \in 1..(Len(ks) - 1) : K[ks[i]].best # "absent"
 
@@ -91,13 +97,14 @@ LiveEqFresh(ks) ==
 (* entries of a cache survive iff the cache object survives every update *)
 Survives(ks, cname) == \A i \in 1..Len(ks) : cname \in K[ks[i]].caches
 
-DesignInv == \A ks \in Seqs2 \cup Seqs3 \cup Bursts : LiveEqFresh(ks)
+DesignInv == \A ks \in Seqs2 \cup Seqs3 \cup Bursts \cup Lates : LiveEqFresh(ks)
 
 -----------------------------------------------------------------------------
 VARIABLE l
 
-CaseOf(q, gap) ==
-  [seq |-> q, gap |-> gap, configs |-> [j \in 1..Len(q) |-> K[q[j]]],
+(* late: seconds to wait before the last configuration is written (longer than the graceful close of a removed server) *)
+CaseOfL(q, gap, late) ==
+  [seq |-> q, gap |-> gap, late |-> late, configs |-> [j \in 1..Len(q) |-> K[q[j]]],
    lingering |-> LingeringBest(q),
    stableA |-> \A j \in 1..Len(q) : K[q[j]].servers[1] = K[q[1]].servers[1],
    readd |-> \E a \in 1..Len(q), b \in 1..Len(q), c \in 1..Len(q) :
@@ -105,11 +112,15 @@ CaseOf(q, gap) ==
    retained |-> Survives(q, K[q[Len(q)]].servers[1].cache) /\
                 \A j \in 1..Len(q) : K[q[j]].servers[1].cache = K[q[1]].servers[1].cache]
 
+CaseOf(q, gap) == CaseOfL(q, gap, 0)
+
 EmitInit ==
   /\ l = 0
   /\ LET Q == SetToSeq(Seqs2 \cup (IF IOEnv.TIER = "thorough" THEN Seqs3 ELSE {s \in Seqs3 : s[1] = s[3] /\ s[1] \in {"k1", "k4", "k7", "k9"}}))
          B == SetToSeq(Bursts \X Gaps)
-     IN ndJsonSerialize(IOEnv.OUT, [i \in 1..Len(Q) |-> CaseOf(Q[i], -1)] \o [i \in 1..Len(B) |-> CaseOf(B[i][1], B[i][2])])
+         L == SetToSeq(Lates)
+     IN ndJsonSerialize(IOEnv.OUT, [i \in 1..Len(Q) |-> CaseOf(Q[i], -1)] \o [i \in 1..Len(B) |-> CaseOf(B[i][1], B[i][2])]
+                                   \o [i \in 1..Len(L) |-> CaseOfL(L[i], -1, 12)])
 EmitNext == FALSE /\ l' = l
 
 (* gap = -1: every update is awaited before the next configuration is written.
